@@ -4,6 +4,7 @@
 import Valida.Rule
 import Valida.Spec.Parse
 import ValidaProofs.Lemmas.Basic
+import ValidaProofs.Lemmas.C17Lemmas
 import ValidaProofs.C01
 namespace ValidaProofs
 open Valida ValidaGen
@@ -13,8 +14,8 @@ open Valida ValidaGen
 theorem C17_resolve (doc : PyVal) (v : PyVal) (p : Path) :
     resolveArg (some doc) (.lit v) = .ok v ∧ resolveArg none (.lit v) = .ok v ∧
     resolveArg (some doc) (.path p) = p.getData (some doc) false ∧
-    resolveArg none (.path p) = .ok (.obj 0) := by
-  sorry
+    resolveArg none (.path p) = .ok (.obj 0) :=
+  ⟨rfl, rfl, rfl, rfl⟩
 
 /-- replacing a path argument by what the path selects in the document -/
 def substArg (doc : PyVal) : Arg → Arg
@@ -28,23 +29,32 @@ def substArg (doc : PyVal) : Arg → Arg
     of a combination, at every depth, positional and keyword arguments alike -/
 theorem C17_substitute (c : Cond Arg) (doc : PyVal) :
     (c.mapArgs (substArg doc)).resolve (some doc) = c.resolve (some doc) := by
-  sorry
+  have point : ∀ a, resolveArg (some doc) (substArg doc a) = resolveArg (some doc) a := by
+    intro a
+    cases a with
+    | lit v => rfl
+    | path p =>
+      simp only [substArg]
+      cases h : p.getData (some doc) false <;> simp [resolveArg, h]
+  unfold Cond.resolve
+  rw [C17L.mapArgs_mapArgs]
+  exact C17L.mapArgs_congr _ _ point c
 
 theorem C17_substitute_rule (r : RuleM) (doc : PyVal) :
     ruleTestOn { r with cond := r.cond.mapArgs (substArg doc) } doc = ruleTestOn r doc := by
-  sorry
+  simp only [ruleTestOn, C17_substitute]
 
 /-- the same source document reaches every leaf of a combination -/
 theorem C17_all_leaves (op : BinOp) (a b : Cond Arg) (src : Option PyVal) :
-    (Cond.bin op a b).resolve src = .bin op (a.resolve src) (b.resolve src) := by
-  sorry
+    (Cond.bin op a b).resolve src = .bin op (a.resolve src) (b.resolve src) :=
+  rfl
 
 /-- a concrete path that is absent resolves to `None`, a non-concrete one to `[]` -/
 theorem C17_absent (p : Path) (doc : PyVal) (paths : List (List PyVal))
     (hsrc : p.source = none) (hdoc : PyVal.truthy doc = true) (hne : p.parts ≠ [])
     (h : walkParts p.parts true [doc] [] = .ok ([], paths)) :
     p.getData (some doc) false = .ok (if p.concrete then .none else .list []) := by
-  sorry
+  simp [Path.getData, hsrc, hdoc, hne, h, bind, Except.bind, pure, Except.pure]
 
 /-- resolution happens inside the callable's `try`: when it raises an exception the `except` clause
     catches (`single()` with several matches: ValueError; a datum modifier undefined on the node:
@@ -54,7 +64,9 @@ theorem C17_resolution_error_fails_item (pre fn : String) (args : List RArg) (kw
     (he : e = .valueError ∨ e = .typeError ∨ e = .attributeError)
     (ha : resolveAll args = .error e) :
     evalItem pre fn args kwargs datum = .ok ⟨false, true, false⟩ := by
-  sorry
+  have hc : caughtBy catchesFilterCallable e = true := by
+    rcases he with rfl | rfl | rfl <;> decide
+  simp [evalItem, hp, callLeaf, ha, bind, Except.bind, hc]
 
 /-- a literal mapping written with the escaped key is compared literally: the parser un-escapes the key
     and does not build a data path -/
@@ -64,13 +76,15 @@ theorem C17_escaped (fuel : Nat) (v : PyVal) :
      | .error _ => Arg.lit .none) = Arg.lit (.dict [(.str "path", v)]) ∧
     parseCond (fuel + 4) (.dict [(.str "value.equal_to", .dict [(.str "\\path", v)])]) =
       .ok (.leaf { cls := .value, fn := "equal_to", args := [], kwargs := [("value", .lit (.dict [(.str "path", v)]))] }) := by
-  sorry
+  constructor
+  · rw [C17L.pathSpec_escaped]; rfl
+  · rw [C17L.parse_value_equal_to (fuel + 3) _ _ (C17L.sniff_escaped _ v)]; rfl
 
 /-- … whereas the un-escaped spelling is a data path -/
 theorem C17_path_spec_argument (fuel : Nat) (s : String) (p : Path)
     (hp : fromPartSpecs (fuel + 2) [.str s] = .ok p) :
     parseCond (fuel + 5) (.dict [(.str "value.equal_to", .dict [(.str "path", .list [.str s])])]) =
       .ok (.leaf { cls := .value, fn := "equal_to", args := [], kwargs := [("value", .path p)] }) := by
-  sorry
+  rw [C17L.parse_value_equal_to (fuel + 4) _ _ (C17L.sniff_path _ s p hp)]; rfl
 
 end ValidaProofs
